@@ -1135,6 +1135,8 @@ class ArgumentParser(ParserDeprecations, ActionsContainer, ArgumentLinking, argp
                 parent_action = None
                 if action is None:
                     if _is_branch_key(self, key):
+                        if cfg[key] is not None and not isinstance(cfg[key], (Namespace, dict)):
+                            raise TypeError(f'Key "{key}" expects a mapping but got: {cfg[key]!r}')
                         continue
                     parent_action, subcommand = _find_parent_action_and_subcommand(self, key, exclude=_ActionConfigLoad)
                     if parent_action:
